@@ -46,7 +46,27 @@ type c18Op struct {
 type c18Case struct {
 	N  int       `json:"n,omitempty"` // size parameter (limit, pool size)
 	P  int       `json:"p,omitempty"` // time parameter in ms (maxAge, refresh interval)
+	F  []c18Op   `json:"f,omitempty"` // plan for callbacks without a caller (n-th invocation): A=2 panics
 	Gs [][]c18Op `json:"gs"`
+}
+
+// c18Panic is the value every generated callback panic carries.
+type c18Panic struct{ what string }
+
+// c18Try runs f and reports whether it panicked; the panic is recovered here,
+// on the caller's goroutine, the way recover middleware does upstream of the
+// primitives. A panic that is not a generated one is returned for reporting.
+func c18Try(f func()) (panicked bool, foreign interface{}) {
+	defer func() {
+		if r := recover(); r != nil {
+			panicked = true
+			if _, ok := r.(c18Panic); !ok {
+				foreign = r
+			}
+		}
+	}()
+	f()
+	return
 }
 
 // c18Stamp: S is the logical sequence number, T the virtual time since the
@@ -79,6 +99,8 @@ type c18Ev struct {
 	NExec    int // number of times the callback was invoked by this call
 	Fresh    bool
 	Res      int
+	Pan      bool   // the call panicked (recovered by the harness)
+	Foreign  string // a panic value that no generated callback raised
 }
 
 // c18Exec is one execution of a user callback (fn / create / fetch).
@@ -88,6 +110,7 @@ type c18Exec struct {
 	G, I       int
 	Start, End c18Stamp
 	Fail       bool
+	Pan        bool // the callback panicked
 }
 
 type c18TagErr struct{ id int }
@@ -286,6 +309,12 @@ func c18Gap(rt *rapid.T) int {
 
 func c18Hold(rt *rapid.T) int {
 	return rapid.SampledFrom([]int{0, 1, 1, 2, 2, 3, 4, 5}).Draw(rt, "hold")
+}
+
+// c18Outcome of a callback: 0 returns a value, 1 returns an error, 2 panics
+// (the panic is recovered by the harness on the caller's goroutine).
+func c18Outcome(rt *rapid.T) int {
+	return rapid.SampledFrom([]int{0, 0, 0, 0, 0, 0, 0, 1, 1, 2}).Draw(rt, "outcome")
 }
 
 func c18Key(rt *rapid.T) int {
